@@ -4,7 +4,7 @@
    to /repo by the correspondence check on every run). *)
 From Coq Require Import List ZArith Lia Bool.
 From RecordUpdate Require Import RecordSet.
-From Sim Require Import Map Variant Current Kernel Queue Net Pcap SimState Sim RegistryProofs SockProofs QueueProofs.
+From Sim Require Import Map Variant Current Kernel Queue Net Pcap SimState Sim RegistryProofs SockProofs QueueProofs NatProofs.
 Import ListNotations.
 Import RecordSetNotations.
 Local Open Scope Z_scope.
@@ -35,3 +35,42 @@ Theorem C13_repairs_in_place :
 Proof. split; reflexivity. Qed.
 Print Assumptions C13_repairs_in_place.
 
+
+(* ---- over whole routes: any number of NAT hops (Proofs/NatProofs.v) ---- *)
+Theorem C13_nat_hops_forward_in_the_same_step :
+  forall v now exts hs fuel p w rest,
+  length hs = length exts -> p_hops p = hs ++ rest ->
+  (forall i h e, nth_error hs i = Some h -> nth_error exts i = Some e -> mget SNone (w_sinks w) h = SNat e) ->
+  forward v (length hs + fuel) now p w =
+    (let (p', w') := nat_chain v exts p w in forward v fuel now p' w').
+Proof. exact forward_through_nats. Qed.
+Print Assumptions C13_nat_hops_forward_in_the_same_step.
+
+Theorem C13_a_chain_of_nats_changes_only_the_source_address :
+  forall v exts p w,
+  let (p', w') := nat_chain v exts p w in
+  same_but_source p p' /\
+  p_hops p' = skipn (length exts) (p_hops p) /\
+  (exts <> [] -> e_addr (p_from p') = last exts addr_any4) /\
+  (exts = [] -> p_from p' = p_from p) /\
+  w_sinks w' = w_sinks w /\ w_tcps w' = w_tcps w /\ w_udps w' = w_udps w /\
+  w_tcp_reg w' = w_tcp_reg w /\ w_udp_reg w' = w_udp_reg w.
+Proof. exact nat_chain_changes_only_the_source_address. Qed.
+Print Assumptions C13_a_chain_of_nats_changes_only_the_source_address.
+
+Theorem C13_last_hop_delivers_in_the_same_step :
+  forall v now f p w h tgt,
+  p_hops p = [h] -> mget SNone (w_sinks w) h = SFwd tgt ->
+  forward v (S f) now p w = deliver (mkCtx v now (forward v f now)) tgt (set_hops p []) w.
+Proof. exact last_hop_delivers. Qed.
+Print Assumptions C13_last_hop_delivers_in_the_same_step.
+
+Theorem C13_route_example :
+  forall v w,
+  let p := {| p_type := PPayload; p_ec := 0; p_buf := [1; 2; 3]; p_from := {| e_addr := {| a_v6 := false; a_val := 7 |}; e_port := 4000 |};
+              p_overhead := 28; p_hops := [11; 12; 13]; p_chan := None; p_seq := 0; p_bytectr := 0; p_drop := None |} in
+  let p' := fst (nat_chain v [ex_ext1; ex_ext2] p w) in
+  p_from p' = {| e_addr := ex_ext2; e_port := 4000 |} /\ p_hops p' = [13] /\ p_buf p' = [1; 2; 3] /\
+  snd (nat_chain v [ex_ext1; ex_ext2] p w) = w.
+Proof. exact nat_chain_example. Qed.
+Print Assumptions C13_route_example.
